@@ -27,21 +27,24 @@ Fixpoint plain_src (t : src) : bool :=
   | SParam _ | SPrimT _ | SBitVec _ _ => true
   end.
 
-(** parameters occur only directly or under Vec / array / tuple / Compact; everything else
-    (applications of definitions, prelude types, bit sequences) is closed *)
+(** parameters occur only directly or under Vec / array / tuple / Compact / Option / Result /
+    Range / Cow; everything else (applications of definitions, BTreeMap / BTreeSet - whose entries
+    hide a [Vec] -, bit sequences) is closed *)
 Fixpoint teq_frag (t : src) : bool :=
   closed_src t ||
   match t with
   | SParam _ => true
-  | SVec x | SArray _ x | SCompactT x => teq_frag x
+  | SVec x | SArray _ x | SCompactT x | SOpt x | SRange x | SCow x => teq_frag x
+  | SRes a b => teq_frag a && teq_frag b
   | STup ts => forallb teq_frag ts
   | _ => false
   end.
 
-(** sub-terms reached through Vec / array / tuple / Compact *)
+(** sub-terms reached through Vec / array / tuple / Compact / Option / Result / Range / Cow *)
 Fixpoint spine (t : src) : list src :=
   t :: match t with
-       | SVec x | SArray _ x | SCompactT x => spine x
+       | SVec x | SArray _ x | SCompactT x | SOpt x | SRange x | SCow x => spine x
+       | SRes a b => spine a ++ spine b
        | STup ts => flat_map spine ts
        | _ => []
        end.
@@ -67,7 +70,10 @@ Definition teq_program_okb (d : sdef) : bool :=
   teq_def_okb d && forallb (fun f => params_live (sd_params d) (sf_ty f)) (def_sfields d).
 
 Definition spine_head (c : src) : bool :=
-  match c with SVec _ | SArray _ _ | SCompactT _ | STup _ => true | _ => false end.
+  match c with
+  | SVec _ | SArray _ _ | SCompactT _ | STup _ | SOpt _ | SRes _ _ | SRange _ | SCow _ => true
+  | _ => false
+  end.
 
 (** ** [registry_ofb] (Model/Program.v) compares fields and variants of the prelude entries up to
     their docs; [RegistryOf] fixes them (no docs, as scale-info produces them) *)
